@@ -47,8 +47,8 @@ def plan(tier, seed):
     specs.append({"name": "freq1", "kind": "freq", "shard": 81, "instances": 6 if tier == "quick" else 40, "timeout": 7000})
     for i in range(2 if tier == "quick" else 6):
         specs.append({"name": "cli%d" % i, "kind": "cli", "shard": 90 + i, "datasets": 1 if tier == "quick" else 3, "timeout": 7000})
-    for i in range(2):
-        specs.append({"name": "wide%d" % i, "kind": "wide", "shard": 130 + i, "instances": 8 if tier == "quick" else 80, "timeout": 7000})
+    for i in range(4):
+        specs.append({"name": "wide%d" % i, "kind": "wide", "shard": 130 + i, "instances": 20 if tier == "quick" else 100, "timeout": 7000})
     for i in range(2):
         specs.append({"name": "reuse%d" % i, "kind": "reuse", "shard": 120 + i, "instances": 25 if tier == "quick" else 300, "timeout": 7000})
     for i in range(4):
@@ -65,7 +65,7 @@ def required(tier):
             "compound_paths_enumerated": 2000, "compound_rows_from_homozygous_state": 20,
             "prog_targets_compared": 100, "prog_targets_with_prior_frequencies": 20, "prog_targets_with_zero_frequency_allele": 5,
             "prog_targets_inbred": 20, "prog_datasets_per_sample_inbreeding": 4, "prog_records_with_tiny_nonzero_prior": 5,
-            "wide_gibbs_vectors": 400, "wide_mh_vectors": 400, "wide_vectors_allele_index_ge_64": 200,
+            "wide_gibbs_vectors": 400, "wide_mh_vectors": 400, "wide_vectors_allele_index_ge_64": 200, "wide_high_ploidy_instances": 4,
             "reuse_second_fits_compared": 60, "reuse_llk_cells_checked": 2000, "reuse_second_fit_revisits_genotype_of_first": 20}
 
 
@@ -466,6 +466,11 @@ def run_wide(tier, seed, spec, col):
         ploidy = int(1 + (i + spec["shard"]) % 7)
         n_pos = 8
         n = int(rng.choice([40, 70, 130, 200, 250]))
+        if i % 5 == 4:
+            # the transposed extreme: a large pool (ploidy up to 256) of few haplotypes - dose counters beyond 127 / 255
+            ploidy = int(rng.choice([24, 32, 64, 127, 128, 129, 200, 256]))
+            n = int(rng.choice([2, 3, 5]))
+            col.count("wide_high_ploidy_instances")
         codes = rng.permutation(256)[:n]
         haps = np.array([[(int(c_) >> j) & 1 for j in range(n_pos)] for c_ in codes], dtype=np.int8)
         n_reads = int(rng.integers(1, 7))
